@@ -117,6 +117,20 @@ func judgeRoundTrip(v *Val) (o rtOutcome) {
 	if p, msg, site := guard(func() { enc = knxnet.AllocAndPack(sent) }); p {
 		return fail("panic:"+site, "encoding a %s value panicked in %s: %s", v.label(), site, msg)
 	}
+	// a sender that keeps one transmit buffer encodes over the previous frame: the frame must not
+	// depend on what the buffer held (encode into a 0xFF-filled buffer of the same size)
+	dirty := make([]byte, len(enc))
+	for i := range dirty {
+		dirty[i] = 0xFF
+	}
+	if p, msg, site := guard(func() { knxnet.Pack(dirty, sent) }); p {
+		return fail("panic:"+site, "encoding a %s value into a used buffer panicked in %s: %s", v.label(), site, msg)
+	}
+	if d := firstDiff(enc, dirty); d >= 0 {
+		var got2 knxnet.Service
+		_, err2 := knxnet.Unpack(dirty, &got2)
+		return fail("encoding-depends-on-buffer:"+v.label(), "a %s value encoded into a fresh buffer and into one that held 0xFF octets differs at offset %d (%#02x vs %#02x); the second frame decodes to %+v (err %v)", v.label(), d, enc[d], dirty[d], got2, err2)
+	}
 	if wouldLoop(enc) { // never produced by a correct encoder; the unrepaired decoder does not terminate on it
 		return fail("encoding-has-zero-length-DIB:"+v.label(), "the encoding of a %s value contains a description block of length 0: % x", v.label(), enc)
 	}
